@@ -75,4 +75,8 @@ CFG(w6, "chain-vine", VECTOR, true, CHAIN, 0, false, true, false, true, true, fa
 #elif PMH_TU == 21
 CFG(v7, "ru-vine", INTRUSIVE_SET, true, RU, 0, false, true, false, true, true, false, true)
 CFG(v8, "ru-vine", LIST, true, RU, 2, false, true, false, true, true, true, true)
+#elif PMH_TU == 22
+// no stored barcode, column indices visible to the caller: the comparators can translate their arguments like the zigzag module does
+CFG(w7, "chain-vine", SET, true, CHAIN, 0, false, true, false, true, false, false, true)
+CFG(w8, "chain-vine", NAIVE_VECTOR, true, CHAIN, 0, true, true, false, false, false, false, true)
 #endif
